@@ -177,7 +177,7 @@ def container_cases(rng, reps=1):
         for container in CONTAINERS:
             for w in CONT_WEIGHTS:
                 # all four ramp branches need >= 2 points; the first point has persistence in 0..3
-                out.append(_container_case(rng, container, w, kc[k % len(kc)], rng.randint(2, 3) if w["type"] == "linear_ramp" else rng.randint(1, 2)))
+                out.append(_container_case(rng, container, w, kc[k % len(kc)], 2 if w["type"] == "linear_ramp" else rng.randint(1, 2)))
                 k += 1
     return out
 
@@ -201,7 +201,7 @@ def generate(rng, tier):
                 if tier == "quick":
                     places = [PLACES[(wi + KCLS_COQ.index(kcls)) % 4] if kcls in KCLS_COQ else PLACES[(wi + KCLS_CORR.index(kcls)) % 4],
                               "mixed"]
-                    if kcls in KCLS_CORR:
+                    if kcls in KCLS_CORR or wi % 2 == 1:
                         places = places[:1]
                 else:
                     places = PLACES
